@@ -49,6 +49,9 @@ CHECKS = {
  "C19": ("exploration", "runtime enumeration of constants parsed from source vs the library's predicates over whole code domains",
   "Constants are parsed from primitive/constants.go at run time; declared values must be accepted and named, every undeclared value of the 8/16-bit domains (exhaustively) and of the 32-bit domains (stratified in quick, all 2^32 for IsValid in thorough) must be rejected; opcode classification, codec arms and a capability table transcribed from the specs are compared for every (version, argument) pair.",
   "Capability table transcribed by hand from the spec texts (6 ambiguous cells unjudged). Check* functions are not swept exhaustively over 2^32 (too slow), IsValid is. " + TB, "DESIGN.md §4 C19"),
+ "C20": ("exploration", "runtime invariant monitor over exhaustive and PRNG mutator / accessor call sequences",
+  "Every sequence up to depth 3 (thorough 4) of the frame mutators (custom payload nil/empty/1/3, warnings, tracing, compression) on a frame of every (message kind, version), plus PRNG sequences up to 50 calls: after every step the header flags must reflect exactly the optional parts held, at the end the frame must encode, declare the right length and round-trip. STARTUP accessors: every sequence up to depth 3/4 over 7 setter/getter pairs plus 1e5 PRNG ones against the getters and the Options-map diff.",
+  "Accessor ownership of option keys is observed from the map diff, not assumed from key names. " + TB, "DESIGN.md §4 C20"),
 }
 
 PENDING_REASON = "check not built yet in this session (see DESIGN.md section 4); not claimed until its quick command exists and is silent on the unchanged tree"
